@@ -1679,3 +1679,65 @@ Proof. induction ks as [|k t IH]; intros c HI H Hk; cbn [fold_left]; auto. inver
 Theorem history_inv_range_empty ks n rs : Forall no_unfold_all ks ->
   Inv (fold_left do_callF ks (mkC n rs [])) /\ in_range (fold_left do_callF ks (mkC n rs [])).
 Proof. intros H. apply history_inv_range; auto. constructor. intros cy o a []. Qed.
+
+(* ---- *=, +, unfold_all's step ----------------------------------------------------------------- *)
+Lemma rep_append_tl a q :
+  Forall amo (cycles a) -> in_range a -> (forall o, In o (iter_ops (cycles a)) -> valid_op a o = true) ->
+  forall n s, nq s = nq a -> rads s = rads a -> tl (rep_append n s a) q = tl s q ++ repeat_app n (tl a q).
+Proof. intros A Hr Hv. induction n as [|n IH]; intros s Hn Hrd; cbn [rep_append repeat_app]; [rewrite app_nil_r; reflexivity|].
+  assert (Hl : nq a = length (all_loc a)) by (unfold all_loc; rewrite seq_length; reflexivity).
+  destruct (append_circuit_tl s a (all_loc a) q Hl) as (T & N & R & _).
+  assert (Hid : map (map_loc (all_loc a)) (iter_ops (cycles a)) = iter_ops (cycles a)).
+  { apply map_id_in. intros o Ho. apply map_loc_id. apply Forall_forall. intros x Hx.
+    apply iter_ops_in in Ho as (cy & H1 & H2). apply (Hr cy o x); auto. }
+  rewrite Hid in T. rewrite (valid_prefix_ext a s _ Hn Hrd), (all_valid_prefix a _ Hv) in T.
+  rewrite IH by congruence. rewrite T, (proj_iter _ q A), <- app_assoc. reflexivity. Qed.
+
+(* a *= n (n >= 1): n copies of a's timeline *)
+Theorem imul_tl a n q :
+  Forall amo (cycles a) -> in_range a -> (forall o, In o (iter_ops (cycles a)) -> valid_op a o = true) ->
+  tl (c_imul a n) q = repeat_app (S (n - 1)) (tl a q).
+Proof. intros A Hr Hv. unfold c_imul. rewrite (rep_append_tl a q A Hr Hv) by reflexivity. reflexivity. Qed.
+
+(* a + b : a new circuit holding a's timelines followed by b's; a itself is unchanged *)
+Theorem add_tl a b q :
+  nq b = nq a -> Forall amo (cycles a) -> Forall amo (cycles b) -> in_range a ->
+  all_qudits (fun x => x < nq a) (cycles b) ->
+  (forall o, In o (iter_ops (cycles a)) -> valid_op a o = true) ->
+  (forall o, In o (iter_ops (cycles b)) -> valid_op a o = true) ->
+  exists s, c_add a b = (a, OkC s) /\ tl s q = tl a q ++ tl b q.
+Proof. intros Hn Aa Ab Hra Hrb Hva Hvb. unfold c_add.
+  set (e := mkC (nq a) (rads a) []).
+  assert (Hla : nq a = length (all_loc a)) by (unfold all_loc; rewrite seq_length; reflexivity).
+  assert (Hlb : nq b = length (all_loc a)) by (unfold all_loc; rewrite seq_length; exact Hn).
+  assert (Hida : map (map_loc (all_loc a)) (iter_ops (cycles a)) = iter_ops (cycles a)).
+  { apply map_id_in. intros o Ho. apply map_loc_id. apply Forall_forall. intros x Hx.
+    apply iter_ops_in in Ho as (cy & H1 & H2). apply (Hra cy o x); auto. }
+  assert (Hidb : map (map_loc (all_loc a)) (iter_ops (cycles b)) = iter_ops (cycles b)).
+  { apply map_id_in. intros o Ho. apply map_loc_id. apply Forall_forall. intros x Hx.
+    apply iter_ops_in in Ho as (cy & H1 & H2). apply (Hrb cy o x); auto. }
+  destruct (append_circuit_tl e a (all_loc a) q Hla) as (T1 & N1 & R1 & O1).
+  rewrite Hida in *. rewrite (valid_prefix_ext a e _ eq_refl eq_refl), (all_valid_prefix a _ Hva) in *. specialize (O1 eq_refl).
+  destruct (append_circuit e a (all_loc a) false) as [s1 out1]. cbn [fst snd] in *. subst out1. cbv iota beta.
+  destruct (append_circuit_tl s1 b (all_loc a) q Hlb) as (T2 & N2 & R2 & O2).
+  rewrite Hidb in *. rewrite (valid_prefix_ext a s1 _ N1 R1), (all_valid_prefix a _ Hvb) in *. specialize (O2 eq_refl).
+  destruct (append_circuit s1 b (all_loc a) false) as [s2 out2]. cbn [fst snd] in *. subst out2. cbv iota beta.
+  exists s2. split; [reflexivity|]. rewrite T2, T1. unfold tl at 1. cbn [e cycles tlc flat_map app].
+  rewrite (proj_iter _ q Aa), (proj_iter _ q Ab). reflexivity. Qed.
+
+(* one pass of unfold_all: every block is replaced, in iteration order, by its inner operations
+   (parameters distributed, relabelled through the block's location); leaves stay *)
+Definition expand_op (o : op) : list op :=
+  if o_isblk o then map (map_loc (o_loc o)) (iter_ops (set_params_cycles (o_sub o) (o_ps o))) else [o].
+
+Theorem unfold_once_tl c q :
+  tl (unfold_once c) q = filter (touches q) (flat_map expand_op (iter_ops (cycles c))).
+Proof. unfold unfold_once.
+  assert (G : forall ops s, tl (fold_left (fun s o => if o_isblk o
+                  then fold_left (fun s o' => fst (append_raw s (map_loc (o_loc o) o'))) (iter_ops (set_params_cycles (o_sub o) (o_ps o))) s
+                  else fst (append_raw s o)) ops s) q = tl s q ++ filter (touches q) (flat_map expand_op ops)).
+  { induction ops as [|o t IH]; intros s; cbn [fold_left flat_map filter]; [rewrite app_nil_r; reflexivity|].
+    rewrite IH, filter_app, app_assoc. f_equal. unfold expand_op. destruct (o_isblk o).
+    - rewrite (fold_left_map (fun s o' => fst (append_raw s o')) (map_loc (o_loc o))). apply appends_tl.
+    - rewrite append_raw_tl. reflexivity. }
+  rewrite G. reflexivity. Qed.
